@@ -2,6 +2,7 @@ import Chewing.Proofs.CliFile
 import Chewing.Proofs.CliSqlOrder
 import Chewing.Proofs.CliAccept
 import Chewing.Proofs.CliRaw
+import Chewing.Proofs.CliLeaf
 /-!
 # C20 — The dictionary compiler and dumper are inverse on well-formed sources
 
@@ -577,6 +578,20 @@ example : compileRaw ⟨true, false, false⟩ [none, some [28204, 35430, 44, 53,
 /-- bytes: `readRawLines` finds the invalid line of `測 5 ㄘㄜˋ\n\xff\xfe 5\n` -/
 example : readRawLines [230, 184, 172, 32, 53, 32, 227, 132, 152, 227, 132, 156, 203, 139, 10, 255, 254, 32, 53, 10] =
     [some [28204, 32, 53, 32, 12568, 12572, 715], none] := by decide
+
+/-! ## 5. what the trie model assumes of `slice::sort_by`, reduced -/
+
+/-- a leaf of a well-formed source under a one-syllable key (one-character phrases): any *stable* sort leaves
+    it in insertion order, as the model does — the comparator says `Equal` for every pair -/
+theorem leaf_sort_single {ps : List PF} (h : ∀ p ∈ ps, p.1.length = 1) : phraseSort ps = ps ∧
+    ∀ a ∈ ps, ∀ b ∈ ps, phraseLess a b = false :=
+  ⟨phraseSort_single h, fun a ha b hb => by simp [phraseLess, phraseLessM, h a ha, h b hb]⟩
+
+/-- a leaf of longer phrases: the comparator is a total order there (frequency descending, then text
+    descending), so *every* sorting algorithm — stable or not — produces the model's leaf -/
+theorem leaf_sort_multi_unique {ps qs : List PF} (hm : ∀ p ∈ ps, p.1.length ≠ 1) (hperm : qs.Perm ps)
+    (hsorted : qs.Pairwise (fun a b => phraseLess b a = false)) : qs = phraseSort ps :=
+  phraseSort_multi_unique hm hperm hsorted
 
 /-! ## non-vacuity: concrete instances of the hypotheses -/
 
